@@ -193,6 +193,7 @@ class Program:
         self._init_tables()
         for u in self.units:
             self._index_unit(u)
+        self.aliases = {}
         self._link_methods()
         return self
 
@@ -226,7 +227,94 @@ class Program:
         self._init_tables()
         for u in self.units:
             self._index_unit(u)
+        self._apply_aliases()
         self._link_methods()
+
+    # ---- rename resolution ------------------------------------------------
+    def class_layout(self, cls_q):
+        """(fields, methods) of a class in declaration order: [(name, type string)]; constructors, destructors, operators and
+        implicit members are left out."""
+        r = self.records.get(cls_q)
+        if not r:
+            return [], []
+        fields, methods = [], []
+        for c in inner(r["decl"]):
+            k = c.get("kind")
+            if k == "FieldDecl":
+                fields.append((c.get("name"), qt(c)))
+            elif k == "CXXMethodDecl" and not c.get("isImplicit") and not (c.get("name") or "").startswith("operator"):
+                methods.append((c.get("name"), qt(c)))
+        return fields, methods
+
+    @staticmethod
+    def _match_renames(expected, actual):
+        """expected / actual: [(name, type)] in declaration order. Returns {actual name: expected name} for declarations that were
+        renamed: same position and type when the counts agree, otherwise the unique unexpected declaration of the same type."""
+        en = {n for n, _t in expected}
+        an = {n for n, _t in actual}
+        missing = [(n, t) for n, t in expected if n not in an]
+        extra = [(n, t) for n, t in actual if n not in en]
+        out = {}
+        if not missing or not extra:
+            return out
+        if len(expected) == len(actual):
+            for (e, et), (a, at) in zip(expected, actual):
+                if e != a and e not in an and a not in en and et == at:
+                    out[a] = e
+        for m, mt in missing:
+            if m in out.values():
+                continue
+            cands = [a for a, at in extra if at == mt and a not in out]
+            same = [x for x, xt in missing if xt == mt and x not in out.values()]
+            if len(cands) == 1 and len(same) == 1:
+                out[cands[0]] = m
+        return out
+
+    def _apply_aliases(self):
+        """Resolve pure renames of data members and methods against the frozen declaration schema (rules/decl_schema.json,
+        generated from the tree the rules were written for): the renamed declaration keeps answering to the name the rules
+        know. Recorded in self.aliases for the evidence."""
+        self.aliases = {}
+        path = os.path.join(frontend.VERIF, "rules", "decl_schema.json")
+        if not os.path.exists(path) or os.environ.get("CQVERIF_NO_ALIASES"):
+            return
+        import json as _json
+        schema = _json.load(open(path))
+        for cls_q, sch in schema.items():
+            if cls_q not in self.records:
+                continue
+            af, am = self.class_layout(cls_q)
+            fmap = self._match_renames([tuple(x) for x in sch.get("fields", [])], af)
+            mmap = self._match_renames([tuple(x) for x in sch.get("methods", [])], am)
+            if not fmap and not mmap:
+                continue
+            self.aliases[cls_q] = {"fields": fmap, "methods": mmap}
+            rec = self.records[cls_q]
+            for a, e in fmap.items():
+                if a in rec["fields"]:
+                    rec["fields"][e] = rec["fields"].pop(a)
+            for u in self.units:
+                for d in u.by_id.values():
+                    if d.get("_ctx") != cls_q:
+                        continue
+                    k = d.get("kind")
+                    nm = d.get("name")
+                    if k == "FieldDecl" and nm in fmap:
+                        d["_q"] = cls_q + "::" + fmap[nm]
+                        d["_alias"] = fmap[nm]
+                    elif k == "CXXMethodDecl" and nm in mmap:
+                        d["_q"] = cls_q + "::" + mmap[nm]
+                        d["_alias"] = mmap[nm]
+            for f in list(self.funcs.values()):
+                if f.cls == cls_q and f.kind == "CXXMethodDecl" and f.name in mmap:
+                    old = f.qname
+                    f.qname = cls_q + "::" + mmap[f.name]
+                    f.name = mmap[f.name]
+                    if old in self.funcs_by_q and f in self.funcs_by_q[old]:
+                        self.funcs_by_q[old].remove(f)
+                    self.funcs_by_q.setdefault(f.qname, []).append(f)
+            for old_q in [q for q in list(self.decl_only) if q.startswith(cls_q + "::") and q.split("::")[-1] in mmap]:
+                self.decl_only.setdefault(cls_q + "::" + mmap[old_q.split("::")[-1]], []).extend(self.decl_only.pop(old_q))
 
     # ---- indexing -----------------------------------------------------
     def _index_unit(self, u):
